@@ -50,7 +50,8 @@ AllSteps(k, Q(_, _, _), tag) ==
      \/ /\ k.ns[K(st)] = N(st)
         /\ OutN(st) <= Len(k.runs[r].out)
         /\ Q(k.runs[r], st, refs[K(st)])
-     \/ PrintT(<<tag, i, r, s>>) /\ FALSE          \* tells the check which round of which schedule was refused
+     \* tells the check which round of which schedule was refused, and what the reference says there
+     \/ PrintT(<<tag, i, r, s, refs[K(st)].s.oc, refs[K(st)].t.oc>>) /\ FALSE
 
 CaseOk == i > 0 => (~Case.ub /\ AllSteps(Case, StepP, "PFAIL"))
 ImplOk == i > 0 => AllSteps(Case, StepI, "IFAIL")
